@@ -297,7 +297,10 @@ func genScenario(r *vh.Rand, idx int, nsinks int) Scenario {
 		default:
 			k = []byte(baseKeys[r.Intn(len(baseKeys))])
 		}
-		if r.Chance(1, 6) {
+		if r.Chance(1, 12) {
+			// a key the route manager refuses to advertise (longer than 255 bytes)
+			k = []byte(strings.Repeat("L", r.Pick(256, 257, 300)))
+		} else if r.Chance(1, 6) {
 			// a key at a length boundary
 			k = []byte(strings.Repeat("k", r.Pick(15, 16, 17, 31, 32, 33, 63, 64, 65, 127, 128, 129, 246, 247)))
 		}
@@ -399,6 +402,10 @@ func witnesses() []Scenario {
 		boundaryScenario("w-key-length-63-64-65", []int{63, 64, 65}),
 		boundaryScenario("w-key-length-31-32-33-128", []int{31, 32, 33, 128}),
 		boundaryScenario("w-key-length-246-247-254-255", []int{246, 247, 254, 255}),
+		// an endpoint whose key is too long to be advertised (> 255 bytes) next to ordinary ones: the empty key stays unknown
+		{Name: "w-unadvertisable-endpoint", Endpoints: []Endpoint{{Key: b("web"), Target: 0}, {Key: b(strings.Repeat("k", 300)), Target: 1}, {Key: b("db"), Target: 2}}, Requests: []Request{
+			{"dispatch", b("forward:")}, {"direct", b("")}, {"dispatch", b("forward:web")}, {"direct", b(strings.Repeat("k", 300))}, {"direct", b(strings.Repeat("k", 255))},
+			{"dispatch", b("forward:db")}, {"dispatch", b("forward:")}}},
 		{Name: "w-duplicate-key-last-wins", Endpoints: []Endpoint{{Key: b("web"), Target: 0}, {Key: b("web"), Target: 1}, {Key: b("Web"), Target: 2}}, Requests: []Request{
 			{"dispatch", b("forward:web")}, {"direct", b("web")}, {"direct", b("Web")}, {"direct", b("WEB")}}},
 		{Name: "w-no-endpoints", Requests: []Request{{"dispatch", b("forward:web")}, {"dispatch", b("forward:")}, {"direct", b("web")}}},
